@@ -135,9 +135,18 @@ bool FeatureChecker::isRateDisallowedInSymbolic(const expression_t& e)
         if (clock.get(0).get_symbol().get_type().is(Constants::HYBRID))
             return false;
 
+        // a constant rate may be an integer or a floating-point literal, possibly negated
+        bool negative = false;
+        while (rate.get_kind() == Constants::UNARY_MINUS) {
+            negative = !negative;
+            rate = rate.get(0);
+        }
         if (rate.get_kind() != Constants::CONSTANT)
             return false;
-        if (rate.get_value() != 0 && rate.get_value() != 1)
+        double value = rate.get_type().is_double() ? rate.get_double_value() : rate.get_value();
+        if (negative)
+            value = -value;
+        if (value != 0 && value != 1)
             return true;  // NOLINT(readability-simplify-boolean-expr)
 
         return false;
